@@ -119,3 +119,5 @@ Theorem C20_gfqext_table_indices_in_bounds : Gfqx_indices_stmt.   Proof. exact g
 Print Assumptions C20_gfqext_table_indices_in_bounds.
 Theorem C20_gfqext_random_canonical : Gfqx_random_stmt.           Proof. exact gfqx_random_thm. Qed.
 Print Assumptions C20_gfqext_random_canonical.
+Theorem C20_randiter_assignment_continues_like_source : Randiter_assign_verdict. Proof. exact randiter_assign. Qed.
+Print Assumptions C20_randiter_assignment_continues_like_source.
